@@ -221,16 +221,33 @@ Definition builtin (f : string) (args : list value) : option ctl :=
     (* Display of a string-like value; a `Cow` dereferences to what it holds *)
     match args with
     | [VStr s] | [VCon "Cow::Owned" [VStr s]] | [VCon "Cow::Borrowed" [VStr s]] => Some (CVal (VStr s))
+    | [VCon "anyhow::Error" [VStr _; _; VStr text]] => Some (CVal (VStr text))
     | _ => None
     end
   else if f =? "Binary::default" then match args with [] => Some (CVal (VCon "Binary::default" [])) | _ => None end
   else if f =? "unwrap_or_default_string" then
     match args with [VCon "Some" [v]] => Some (CVal v) | [VCon "None" []] => Some (CVal (VStr "")) | _ => None end
+  (* `anyhow::Error` is the value `anyhow::Error [type name; the error it wraps; its Display text]`:
+     `e.is::<T>()`, `e.downcast::<T>()` compare the recorded type name with the name T written in the source *)
+  else if f =? "anyhow::is" then
+    match args with [VCon "anyhow::Error" [VStr ty; _; VStr _]; VStr t] => Some (CVal (VBool (String.eqb ty t))) | _ => None end
+  else if f =? "anyhow::downcast" then
+    match args with
+    | [VCon "anyhow::Error" [VStr ty; inner; VStr txt]; VStr t] =>
+        Some (CVal (if String.eqb ty t then VCon "Ok" [inner] else VCon "Err" [VCon "anyhow::Error" [VStr ty; inner; VStr txt]]))
+    | _ => None
+    end
+  else if f =? "unwrap" then
+    match args with
+    | [VCon "Ok" [v]] | [VCon "Some" [v]] => Some (CVal v)
+    | [VCon "Err" [_]] | [VCon "None" []] => Some (CPanic "unwrap" "")
+    | _ => None
+    end
   else None.
 
 Definition is_builtin (f : string) : bool :=
   existsb (String.eqb f) ["len"; "is_empty"; "konst::cmp_str"; "konst::eq_str"; "into"; "to_string"; "Binary::default";
-                          "unwrap_or_default_string"].
+                          "unwrap_or_default_string"; "anyhow::is"; "anyhow::downcast"; "unwrap"].
 
 Definition binop (op : string) (a b : value) : option ctl :=
   match a, b with
